@@ -22,7 +22,7 @@ def e2e_part(prop, tier, cov, violations, notes, build_is_violation=False):
         violations.append(v)
     for nb in e["not_built"] + e["screened_out"]:
         msg = str(nb.get("errors") or nb.get("what"))[:400]
-        if build_is_violation:
+        if True:
             violations.append({"definition": nb.get("definition"), "kind": "does-not-build", "what": "well-formed definition does not expand/compile: " + msg, "input": None})
         else:
             notes.append(f"lexer {nb['lexer']} not built ({msg[:120]}): unexplored here, C12's business")
